@@ -41,6 +41,29 @@ CHECKS = {
             "Trusted: the offline checker; physical-time verdicts only when the host "
             "watchdog saw < 0.5-1 s starvation and no wall-clock step.",
             "3/C08"),
+    'C10': ("differential monitor across processes: the same generated programs run in two "
+            "fresh NRT processes (different hash seeds) and in an RT process under "
+            "sys.monitoring yield injection; per-routine logs, bundle ids/timetags and raw "
+            "score bytes compared by the driver; seed-independence pairs in NRT",
+            "Runtime differential monitoring of seeded random programs (multi-clock with "
+            "cross-clock plays, single-clock with tempo changes/conditions/flow variables, "
+            "single-clock with pause/resume/stop): RT vs NRT logs within 1e-9 s, NRT vs NRT "
+            "byte-identical, seeded draws independent of other routines. Held on the "
+            "programs explored.",
+            "Trusted: the interpreter vf/prog.py and the program families' independence from "
+            "physical time (documented in vf/props/C10.py); RT batches compared only after "
+            "every clock queue was observed empty.",
+            "3/C10"),
+    'C11': ("reference-model monitor in lock step (routine state machine incl. operations "
+            "issued from inside bodies, current-thread/parent/time invariants after every "
+            "operation) + Condition/FlowVar trace monitor (exactly-once, never-before) in NRT "
+            "and in RT under yield injection with releases from a plain thread",
+            "Runtime monitoring of random operation histories on real Routine objects against "
+            "a 100-line state-machine model, and of generated programs with 1-8 waiters per "
+            "condition. Held on the histories explored.",
+            "Trusted: the model in vf/props/C11.py (documented state machine; re-entrant "
+            "next() may raise anything but must keep the current-thread pointer).",
+            "3/C11"),
 }
 
 NOT_YET = "check not built yet in this session (work in progress); runtime monitoring is applicable"
